@@ -78,6 +78,7 @@ class SourceTypes:
         self.structs = {}   # last_seg -> [(module_path, [field names], file)]
         self.impls = {}     # (file, line) -> (trait_last_seg|None, type_last_seg)
         self.variant_fields_tbl = {}   # (module, enum, variant) -> [field names]
+        self.derives = {}              # (file, line, col) -> (trait, type)
         self._scan()
 
     def _scan(self):
@@ -125,6 +126,23 @@ class SourceTypes:
                 self.impls[(rel, line)] = (last_seg(tr.strip()), last_seg(ty.strip().lstrip("&").strip()))
             else:
                 self.impls[(rel, line)] = (None, last_seg(hdr.lstrip("&").strip()))
+        # #[derive(..)] lines: rustc names a derived impl by the position of the trait name inside the attribute
+        lines = src.split("\n")
+        for li, text in enumerate(lines):
+            dm = re.search(r"#\[derive\((.*?)\)\]", text)
+            if not dm:
+                continue
+            tyname = None
+            for nxt in lines[li + 1: li + 12]:
+                tm = re.match(r"\s*(?:pub(?:\([^)]*\))?\s+)?(?:struct|enum|union)\s+(\w+)", nxt)
+                if tm:
+                    tyname = tm.group(1)
+                    break
+            if not tyname:
+                continue
+            for m2 in re.finditer(r"[\w:]+", dm.group(1)):
+                col = dm.start(1) + m2.start() + 1
+                self.derives[(rel, li + 1, col)] = (m2.group(0).split("::")[-1], tyname)
         clean = self._strip_comments(src)
         for m in re.finditer(r"\b(enum|struct)\s+(\w+)\s*(<[^{;(]*>)?\s*(where[^{;]*)?([\{\(;])", clean):
             kind, name, opener = m.group(1), m.group(2), m.group(5)
